@@ -131,6 +131,41 @@ Proof.
   destruct (nth_error fs k); try reflexivity. rewrite slice3_open_time. reflexivity.
 Qed.
 
+(* ------------------------------------------------------------------ the problem object: whenever it
+   yields a fitness at all, that fitness is the declared figure of merit *)
+Lemma declared_from_map : forall {A B B'} (t1 : nat -> A -> B' -> fres) (t2 : nat -> A -> B -> fres) (f : B -> B'),
+  (forall k s t, t1 k s (f t) = t2 k s t) ->
+  forall sims tgts k acc, declared_from t1 sims k (map f tgts) acc = declared_from t2 sims k tgts acc.
+Proof.
+  intros A B B' t1 t2 f H sims tgts. induction tgts as [|t r IH]; intros k acc; [reflexivity|].
+  cbn [map declared_from]. destruct (pick_sim sims k) as [s|]; [|reflexivity].
+  rewrite H. destruct (t2 k s t); try reflexivity. apply IH.
+Qed.
+
+(* with the weights configuration of the tree as repaired (weights kept for single- and multi-readout
+   targets, scalar weights of the target region's shape): 2-D target range, no target without a
+   processor.  The three outcomes: refused at construction / outside the model (the restricted
+   result and target have different shapes) / the declared sum over ALL targets of the configured
+   function on result[result range], target[target range] with weight k in term k. *)
+Theorem model_fit_is_declared : forall ck cl c sims tr tc,
+  fc_trng c = FR2 tr tc -> (length (fc_tgts c) <= length sims)%nat ->
+  model_fit ck cl coded_wconf c sims = OCtor \/
+  model_fit ck cl coded_wconf c sims = OUndef \/
+  model_fit ck cl coded_wconf c sims = fobs_of (declared_sum (term_declared c) sims (fc_tgts c)).
+Proof.
+  intros ck cl c sims tr tc E Hl. unfold model_fit. rewrite E.
+  destruct (if fc_bypass c then Accept else ctor_check ck cl c sims); auto.
+  destruct (out_slices (fc_orng c)) as [[ot orow] ocol].
+  replace (weights_kept coded_wconf c) with (fc_w c)
+    by (unfold weights_kept, coded_wconf; cbn; destruct (fc_multi c); reflexivity).
+  cbn [wc_shape coded_wconf].
+  match goal with |- context [if ?b then OUndef else _] => destruct b end; auto.
+  right. right. f_equal.
+  rewrite loop_is_declared by (rewrite map_length; exact Hl).
+  unfold declared_sum. apply declared_from_map.
+  intros k s t. apply term_coded_is_declared. exact E.
+Qed.
+
 (* ------------------------------------------------------------------ champions *)
 Lemma Qle_bool_total : forall a b, Qle_bool a b = false -> Qle_bool b a = true.
 Proof.
